@@ -617,6 +617,12 @@ def _group_removal(ctx):
 
 
 def check(ctx):
+    # shared with C09.4: an identity changes hands only inside a scheduling
+    # cycle or restore_placement - anywhere else no publication sees it and
+    # a restore that keeps identities finds them gone
+    from . import c09
+    with ctx.shared({'C09': 'C05.5'}):
+        c09._unsnapshotted(ctx, ctx.index.get_class(K.MASTER, 'Master'))
     _typestate(ctx)
     _group_removal(ctx)
     _removal_pairing(ctx)
